@@ -131,6 +131,13 @@ func frameSel(c *ssa.Call, sel EdgeSel) EdgeSel {
 // accepted fact holds, then passing the caller's edge that tests for that outcome implies an accepted fact: the
 // decision of the gate was moved into the helper, not dropped. A helper without any gate edge never qualifies (n > 0).
 func c09GateCut(w *World, fn *ssa.Function, sel EdgeSel, depth int) gateCut {
+	return c09GateCutQ(w, fn, sel, nil, depth)
+}
+
+// c09GateCutQ is c09GateCut with, besides the accepted facts on edges, accepted facts about every element of a list
+// (q, see c09Quant): the edges on which such a universal fact is established are selected as well, in the function and
+// in the helpers it relies on.
+func c09GateCutQ(w *World, fn *ssa.Function, sel EdgeSel, q *c09Quant, depth int) gateCut {
 	fi := w.Info(fn)
 	osel := orAll(sel)
 	gc := gateCut{cut: map[edgeKey]bool{}, tails: map[*ssa.Call]bool{}, sel: osel}
@@ -144,7 +151,7 @@ func c09GateCut(w *World, fn *ssa.Function, sel EdgeSel, depth int) gateCut {
 			memo[c] = map[exitClass]int{}
 		}
 		g := staticCallee(c)
-		sub := c09GateCut(w, g, frameSel(c, sel), depth-1)
+		sub := c09GateCutQ(w, g, frameSelQ(c, sel, q), q.enter(c), depth-1)
 		r := -1
 		if sub.n > 0 && !c09ExitReachable(w, g, sub, cl) {
 			r = sub.n
@@ -226,6 +233,7 @@ func c09GateCut(w *World, fn *ssa.Function, sel EdgeSel, depth int) gateCut {
 			}
 		}
 	}
+	c09Universal(w, fn, sel, q, depth, &gc)
 	_ = fi
 	return gc
 }
@@ -1233,4 +1241,253 @@ func c09SameMaps(w *World, fn *ssa.Function, m ssa.Value) int {
 		}
 	})
 	return n
+}
+
+// ---- facts about every element of a list --------------------------------------------------------------------------
+
+// c09ForAll is an accepted fact of the form "every element of the list satisfies one of the element facts".
+type c09ForAll struct {
+	list string                  // the list, rendered in the outermost frame
+	elem func(el string) EdgeSel // the facts accepted for the element rendered el (labels in the outermost frame)
+}
+
+// c09Quant carries the universal facts through the frames of the helpers.
+type c09Quant struct {
+	sub   func(string) string // renderings / labels of the current frame rewritten into the outermost frame
+	rules []c09ForAll
+	// own: the rendering of the index of the loop whose iteration is being decided ("[@t7]"). Indices are rendered by the
+	// name of the SSA value in its function, so a value of a helper may bear the same name: a label of a helper frame
+	// that mentions it speaks of the helper's own value, not of the loop's index, and is not an element fact.
+	own string
+}
+
+func c09NewQuant(rules ...c09ForAll) *c09Quant {
+	if len(rules) == 0 {
+		return nil
+	}
+	return &c09Quant{sub: func(s string) string { return s }, rules: rules}
+}
+
+// enter: the universal facts in the frame of the static callee of call (parameters stand for the arguments).
+func (q *c09Quant) enter(call *ssa.Call) *c09Quant {
+	if q == nil {
+		return nil
+	}
+	g := staticCallee(call)
+	names := make([]string, len(g.Params))
+	descs := make([]string, len(g.Params))
+	for i, p := range g.Params {
+		names[i] = p.Name()
+		descs[i] = q.sub(desc(call.Call.Args[i]))
+	}
+	return &c09Quant{sub: func(s string) string { return substParams(s, names, descs) }, rules: q.rules, own: q.own}
+}
+
+// frameSelQ is frameSel for a helper frame entered while an iteration of a loop is decided (see c09Quant.own).
+func frameSelQ(c *ssa.Call, sel EdgeSel, q *c09Quant) EdgeSel {
+	fs := frameSel(c, sel)
+	if q == nil || q.own == "" {
+		return fs
+	}
+	return func(l string, iff *ssa.If, truth bool) bool { return !strings.Contains(l, q.own) && fs(l, iff, truth) }
+}
+
+// c09FullLoop: the loop visits every index of its list once, in order: a `range` over the list (the index is generated
+// by the compiler), or a `for` loop whose index starts at 0, is only ever incremented by 1 and runs while i < len(list).
+func c09FullLoop(l *loopRef) bool {
+	if l == nil || l.Idx == nil || l.Header == nil {
+		return false
+	}
+	h := l.Header
+	if strings.HasPrefix(h.Comment, "rangeindex.loop") {
+		return true
+	}
+	idx, ok := l.Idx.(*ssa.Phi)
+	if !ok || idx.Block() != h || len(idx.Edges) < 2 {
+		return false
+	}
+	in := loopBlocks(h)
+	for i, e := range idx.Edges {
+		if in[h.Preds[i].Index] {
+			inc, isInc := e.(*ssa.BinOp)
+			if !isInc || inc.Op != token.ADD || inc.X != ssa.Value(idx) || desc(inc.Y) != "const:1" {
+				return false
+			}
+		} else if desc(e) != "const:0" {
+			return false
+		}
+	}
+	return true
+}
+
+// c09Universal adds to gc the edges of fn on which a universal fact of q is established:
+//
+//   - the exit edge of a loop over the whole list (c09FullLoop) whose iteration cannot return to the loop header unless
+//     it passes an edge on which an element fact holds for the element at the loop's own index — or one of the plain
+//     accepted facts (sel). The element facts may be tested in the loop body or in a helper it relies on (c09GateCutQ).
+//     Soundness: the exit edge is taken when the index has run from 0 to len(list); every index was the subject of one
+//     iteration that came back to the header, and each of those passed an element fact (for its element) or a plain
+//     accepted fact: so a plain fact holds, or the element fact holds for every element. Ways out of the loop other
+//     than the exit edge (break, return in the body) are not selected: they stay open to the enclosing search.
+//   - the empty list: len(list) == 0 (nothing to satisfy);
+//   - the singleton list: an element fact about list[0] on an edge that lies behind the fact len(list) <= 1 (the
+//     list has exactly that element: the read of list[0] did not panic).
+func c09Universal(w *World, fn *ssa.Function, sel EdgeSel, q *c09Quant, depth int, gc *gateCut) {
+	if q == nil || len(q.rules) == 0 {
+		return
+	}
+	fi := w.Info(fn)
+	loops := allLoops(fn)
+	for _, r := range q.rules {
+		r := r
+		for i := range loops {
+			l := &loops[i]
+			if !c09FullLoop(l) || q.sub(desc(l.X)) != r.list {
+				continue
+			}
+			exit := edgeKey{l.Header.Index, 1}
+			if gc.cut[exit] || len(l.Header.Succs) != 2 || l.Header.Succs[1] != l.Exit {
+				continue
+			}
+			esel := r.elem(r.list + "[" + descIndex(l.Idx) + "]")
+			iter := func(lb string, iff *ssa.If, truth bool) bool {
+				return sel(lb, iff, truth) || esel(q.sub(lb), iff, truth)
+			}
+			ge := c09GateCutQ(w, fn, iter, &c09Quant{sub: q.sub, own: "[" + descIndex(l.Idx) + "]"}, depth)
+			// (a forwarded call in the body is an exit of the function, not a completed iteration: nothing to add)
+			if ge.n == 0 || fi.reachHit([]state{{l.Body.Index, 0, -1}}, ge.cut, map[int]bool{l.Header.Index: true}) {
+				continue
+			}
+			gc.cut[exit] = true
+			gc.n += 1 + ge.n
+		}
+		// the empty and the singleton list
+		first := orAll(r.elem(r.list + "[const:0]"))
+		ln := "len(" + r.list + ")"
+		atMostOne := func(b *ssa.BasicBlock) bool {
+			before, ok := fi.mustPassBetween([]int{0}, map[int]bool{b.Index: true})
+			if !ok {
+				return false
+			}
+			for m := range before {
+				if m = q.sub(m); m == "EQ("+ln+",const:1)" || m == "LE("+ln+",const:1)" || m == "LT("+ln+",const:2)" {
+					return true
+				}
+			}
+			return false
+		}
+		// (the element fact may be the success of a call the function forwards: `return check(list[0])` behind len(list) <= 1)
+		for _, b := range fn.Blocks {
+			ret, ok := blockTerm(b).(*ssa.Return)
+			if !ok || len(ret.Results) == 0 {
+				continue
+			}
+			last := ret.Results[len(ret.Results)-1]
+			if call := callOf(last); call != nil && isErrorType(last.Type()) && !gc.tails[call] && call.Block() != nil {
+				if first(q.sub("EQ("+descTailErr(call)+",nil)"), nil, true) && atMostOne(call.Block()) {
+					gc.tails[call] = true
+					gc.n++
+				}
+			}
+		}
+		for _, b := range fn.Blocks {
+			iff, ok := blockTerm(b).(*ssa.If)
+			if !ok || len(b.Succs) != 2 {
+				continue
+			}
+			for j := 0; j < 2; j++ {
+				e := edgeKey{b.Index, j}
+				if gc.cut[e] {
+					continue
+				}
+				lb := q.sub(condLabel(iff.Cond, j == 0))
+				if lb == "EQ("+ln+",const:0)" {
+					gc.cut[e] = true
+					gc.n++
+					continue
+				}
+				if !first(lb, iff, j == 0) {
+					continue
+				}
+				if atMostOne(b) {
+					gc.cut[e] = true
+					gc.n++
+				}
+			}
+		}
+	}
+}
+
+// exitsBlockedQ is exitsBlockedDeep with universal facts among the accepted ones.
+func exitsBlockedQ(w *World, fn *ssa.Function, mode Mode, sel EdgeSel, rules ...c09ForAll) (bool, int, []string) {
+	gc := c09GateCutQ(w, fn, sel, c09NewQuant(rules...), c09Depth)
+	wit := c09Witness(w.Info(fn), mode, entryState(), gc)
+	return wit == nil, gc.n, wit
+}
+
+// iterBlockedQ is iterBlockedDeep with universal facts among the accepted ones.
+func iterBlockedQ(w *World, fn *ssa.Function, l *loopRef, mode Mode, sel EdgeSel, rules ...c09ForAll) (bool, int) {
+	fi := w.Info(fn)
+	gc := c09GateCutQ(w, fn, sel, c09NewQuant(rules...), c09Depth)
+	if fi.reachHit([]state{{l.Body.Index, 0, -1}}, gc.cut, map[int]bool{l.Header.Index: true}) {
+		return false, gc.n
+	}
+	if c09Witness(fi, mode, []state{{l.Body.Index, 0, -1}}, gc, backEdges(l.Header)) != nil {
+		return false, gc.n
+	}
+	return true, gc.n
+}
+
+// c09NoFact is the empty selection of plain facts.
+func c09NoFact(string, *ssa.If, bool) bool { return false }
+
+// c09AtMostOneOrNot: the plain facts of "the wildcard stands alone" in a list: the list has at most one element (however
+// the comparison is spelled: len <= 1, len < 2, len == 1), or slices.Contains(list, wildcard) answered false.
+func c09AtMostOneOrNot(list, wildcard string) EdgeSel {
+	ln := "len(" + list + ")"
+	return anyOf("LE("+ln+",const:1)", "LT("+ln+",const:2)", "EQ("+ln+",const:1)", fmt.Sprintf("F(call:slices.Contains(%s,const:%q))", list, wildcard))
+}
+
+// c09NoneIs: "no element of the list is the wildcard", element by element — what slices.Contains(list, wildcard) == false
+// says, established by a loop over the whole list (c09Universal).
+func c09NoneIs(list, wildcard string) c09ForAll {
+	return c09ForAll{list: list, elem: func(el string) EdgeSel { return anyOf(fmt.Sprintf("NE(%s,const:%q)", el, wildcard)) }}
+}
+
+// c09BestLoop decides the rules of the elements of a list (run) on each loop of fn that ranges over the list and keeps
+// the verdicts of the loop on which the fewest rules fail (the first one on a tie). Several loops may range over the
+// same list — a rule about the list as a whole spelled as a loop of its own next to the loop that validates the elements.
+// The rules are about "a loop that visits every element": they hold if they all hold for one and the same loop.
+// Answers false when no loop ranges over the list.
+func c09BestLoop(c *Ctx, fn *ssa.Function, list string, run func(c *Ctx, loop *loopRef)) bool {
+	var best *Ctx
+	bestBad := 0
+	for _, l := range allLoops(fn) {
+		l := l
+		if desc(l.X) != list {
+			continue
+		}
+		sub := NewCtx(c.W, c.Prop, c.Tier)
+		run(sub, &l)
+		bad := 0
+		for _, o := range sub.Obls {
+			if o.Status != Discharged {
+				bad++
+			}
+		}
+		if best == nil || bad < bestBad {
+			best, bestBad = sub, bad
+		}
+	}
+	if best == nil {
+		return false
+	}
+	c.Evals += best.Evals
+	for f := range best.FnSeen {
+		c.FnSeen[f] = true
+	}
+	for _, o := range best.Obls {
+		c.add(&Obligation{Key: strings.TrimPrefix(o.Key, c.Prop+"/"), Rule: o.Rule, Status: o.Status, Site: o.Site, Detail: o.Detail, Path: o.Path})
+	}
+	return true
 }
